@@ -26,6 +26,15 @@ CHECKS = {
  "C05": dict(cat="exploration", tech="differential monitor across the three mode builds of the same (distribution, ABI, version, full) + generated headers through the real builders",
    text="For 10 (quick) / all 60 (thorough, exhaustive) groups the none/complain/enforce builds are compared block by block (main profile, sub-profiles, hats, in every file): complain present/absent as the mode demands, all other flags and the rest of the header equal to the neither build, and the neither build's flags equal to the source flags as overridden by the flags manifests; 300 / 6000 generated multi-block headers go through the real complain/enforce builders in the worker.",
    note="Trusted: the harness header parser (cross-checked against apparmor_parser -N block enumeration on one configuration per run).", ref="5 C05"),
+ "C18": dict(cat="exploration", tech="differential monitor over pairs of real builds at Hamming distance one, every differing line classified by an expected-difference model",
+   text="Pairs of configurations differing in exactly one option (quick: all neighbours of two base configurations + seed-drawn pairs, ~45 pairs; thorough: all 900, exhaustive) are built for real and compared file by file and line by line; every differing file, link or line must be explained by a rule of the changed option (header flags; abi declaration / commented AppArmor-4 statement / overwrite renames; guarded source lines whose guard flips; manifest-model file sets; documented full-policy edits; exec-mode u removal; drop-in model).",
+   note="Trusted: the manifest model, the guard index built from the source tree, difflib line alignment on non-blank lines (blank lines are layout).", ref="5 C18"),
+ "C03": dict(cat="exploration", tech="reference-model monitor: real directive.Run in worker processes started per distribution vs an independent directive model; marker scan of real build outputs",
+   text="Every shipped file carrying only/exclude x all 30 (distribution, ABI, version) targets (exhaustive), the text entering the directive stage in real builds (tap), and 1500 / 30000 generated profiles (inline and paragraph forms, several filter words, repeated identical markers, sub-profiles, back-to-back paragraphs) are run through the real filter step and compared with the model on the sequence of non-blank lines with their indentation; no marker may survive, also not in real build outputs.",
+   note="Trusted: the directive model in vlib/c03.py (documented semantics; paragraphs end at the next empty line); blank lines are layout.", ref="5 C03"),
+ "C07": dict(cat="exploration", tech="reference-model monitor on directive expansions (worker) + leftover scan of real build outputs + reference parser acceptance",
+   text="Every output file of every explored configuration is scanned for a leftover `#aa:`; every shipped dbus/exec/stack directive and 1800 / 37000 generated ones are expanded by the real directive.Run in a minimal host with a real build directory as root and the generated text is compared with the documented expansion (bus, bind, peer label, path, interfaces; requested transition per executable; ordered body minus the three exclusions, host rules untouched); distinct shipped dbus expansions are parsed by apparmor_parser.",
+   note="Trusted: the harness scanner; the exact executable set of exec directives is judged by C06 (language equivalence), here only transition, duplicates and a lower bound; comment lines are not rules.", ref="5 C07"),
 }
 REASONS = {}
 props = [json.loads(l) for l in open(os.path.join(V, "properties.jsonl"))]
